@@ -1264,10 +1264,20 @@ static void build_expr(WorkList *list, ASTNode *expr, Environment *env) {
                         }
                     }
 
+                    /* Values of two enum types are compared as the integers they are
+                     * (cc rejects a comparison between two C enum types: -Werror=enum-compare) */
+                    bool is_comparison = (op == TOKEN_EQ || op == TOKEN_NE || op == TOKEN_LT ||
+                                          op == TOKEN_LE || op == TOKEN_GT || op == TOKEN_GE);
+                    bool enum_operands = is_comparison &&
+                                         check_expression(expr->as.prefix_op.args[0], env) == TYPE_ENUM &&
+                                         check_expression(expr->as.prefix_op.args[1], env) == TYPE_ENUM;
+
                     if (needs_parens) emit_literal(list, "(");
+                    if (enum_operands) emit_literal(list, "(int)(");
                     if (operand_is_cmp[0]) emit_literal(list, "(");
                     build_expr(list, expr->as.prefix_op.args[0], env);
                     if (operand_is_cmp[0]) emit_literal(list, ")");
+                    if (enum_operands) emit_literal(list, ")");
                     
                     const char *op_str = NULL;
                     switch (op) {
@@ -1287,9 +1297,11 @@ static void build_expr(WorkList *list, ASTNode *expr, Environment *env) {
                         default: op_str = " OP "; break;
                     }
                     emit_literal(list, op_str);
+                    if (enum_operands) emit_literal(list, "(int)(");
                     if (operand_is_cmp[1]) emit_literal(list, "(");
                     build_expr(list, expr->as.prefix_op.args[1], env);
                     if (operand_is_cmp[1]) emit_literal(list, ")");
+                    if (enum_operands) emit_literal(list, ")");
                     if (needs_parens) emit_literal(list, ")");
                 }
             } else if (arg_count == 1) {
